@@ -494,8 +494,11 @@ def _load_random_state():
 def _pickle_save_values(index, name, val):
     file_name = join(_output_directory, f"pickle/{name}_")
     file_name += _file_name_by_strategy(index)
-    with open(file_name, "wb") as f:
+    # With save strategy "latest" this replaces the file a resumed run would
+    # load: never leave it truncated
+    with open(file_name + ".tmp", "wb") as f:
         pickle.dump(val, f)
+    replace(file_name + ".tmp", file_name)
 
 
 def _pickle_load_values(index, name):
